@@ -174,7 +174,7 @@ impl StateCheck for C05 {
     }
 }
 
-fn env_alphabet(t: usize) -> Vec<Letter> {
+pub fn env_alphabet(t: usize) -> Vec<Letter> {
     env_alphabet_v(t, false)
 }
 
